@@ -166,8 +166,65 @@ func cmdC13API(args []string) int {
 			st.sample(map[string]any{"pattern": pat, "config": cfgs[ci].name, "calls": len(calls), "history_head": strings.Join(hist[:min(6, len(hist))], " ")})
 		}
 	}
+	// ---- exhaustion phase: state-explosive patterns whose lazy DFA outgrows the DEFAULT cache only
+	// over several medium calls (the clear budget is per cache and is never reset), then short
+	// probes: an exhausted value must answer like a fresh one (it falls back to the NFA).
+	exhaustPats := []string{`a[ab]{14}c`, `(a|b)*a(a|b){13}c`, `[ab]*b[ab]{12}x?c`, `(?i)k[xy]{15}z`, `x[01]{14}(?:y|z)`}
+	nNoise := 12
+	if *tier == "thorough" {
+		nNoise = 48
+		exhaustPats = append(exhaustPats, `a[ab]{16}c`, `(a|b|c)*a(a|b|c){9}d`)
+	}
+	for pi, pat := range exhaustPats {
+		ast, err := syntax.Parse(pat, syntax.Perl)
+		if err != nil {
+			continue
+		}
+		aged, err := coregex.Compile(pat)
+		if err != nil {
+			continue
+		}
+		hg := newHayGen(r.fork(uint64(pi)+77000), ast)
+		// alphabet of the noise: the bytes of the pattern's classes without its last literal
+		alpha := map[string]string{`a[ab]{14}c`: "ab", `(a|b)*a(a|b){13}c`: "ab", `[ab]*b[ab]{12}x?c`: "ab", `(?i)k[xy]{15}z`: "kxyKXY",
+			`x[01]{14}(?:y|z)`: "x01", `a[ab]{16}c`: "ab", `(a|b|c)*a(a|b|c){9}d`: "abc"}[pat]
+		st.hist("exhaust-pattern")
+		for k := 0; k < nNoise; k++ {
+			noise := make([]byte, 64<<10)
+			for i := range noise {
+				noise[i] = alpha[r.intn(len(alpha))]
+			}
+			api := []string{"Match", "MatchString", "FindIndex", "Count"}[k%4]
+			observe(aged, api, noise)
+		}
+		var probes [][]byte
+		for k := 0; k < 24; k++ {
+			probes = append(probes, hg.next(k%12))
+		}
+		for _, extra := range hg.perLiteral() {
+			probes = append(probes, extra)
+		}
+		for k, h := range probes {
+			if len(h) > 4096 {
+				continue
+			}
+			for _, api := range obsAPIs {
+				got := observe(aged, api, h)
+				fresh, _ := coregex.Compile(pat)
+				want := observe(fresh, api, h)
+				st.Evaluations++
+				distinct.add(pat + "\x00" + api + "\x00" + string(h))
+				if got != want {
+					st.violate(violation{Kind: "aged-vs-fresh", Case: 100000 + pi*1000 + k,
+						Detail: map[string]any{"pattern": pat, "config": "default", "history": fmt.Sprintf("%d calls on 64 KiB of noise over %q (Match/MatchString/FindIndex/Count), then probes", nNoise, alpha),
+							"api": api, "haystack": string(h), "expected_fresh": want, "got_aged": got},
+						Sig: fmt.Sprintf("aged-vs-fresh(exhausted) %s pat=%q hay=%x", api, pat, h), Expected: want, Got: got})
+				}
+			}
+		}
+	}
 	st.Distinct = len(distinct)
-	st.Rule = "per pattern one Regex value (default config or tiny DFA limits, sometimes Longest) receives a history of 8-60 calls over 11 APIs (long-then-short haystacks, repeats, runtime.GC in between); every call's result is compared with the same call on a freshly compiled value; distinct = distinct (pattern, api, haystack)"
+	st.Rule = "per pattern one Regex value (default config or tiny DFA limits, sometimes Longest) receives a history of 8-60 calls over 11 APIs (long-then-short haystacks, repeats, runtime.GC in between); every call's result is compared with the same call on a freshly compiled value; plus an exhaustion phase: state-explosive patterns under the DEFAULT configuration receive 12 (thorough 48) calls on 64 KiB of noise, which uses up the lazy DFA's cache-clear budget, then every API on short probes vs a fresh value; distinct = distinct (pattern, api, haystack)"
 	st.write(*statsPath)
 	return 0
 }
